@@ -192,7 +192,7 @@ fn deriv_case(d: &DerivCase, st: &mut Stats) -> Verdict {
     let inner = (d.inner % 3 + 1) as usize;
     type Dv = Derivative<f64, f64, Dyn, Dyn>;
     let mat = |r: usize, c: usize, src: &[i8], zero: bool| -> DMatrix<f64> { DMatrix::from_fn(r, c, |i, j| if zero { 0.0 } else { src[(i * c + j) % src.len()] as f64 / 4.0 }) };
-    let op = d.op % 18;
+    let op = d.op % 23;
     // shapes: matrix product uses (rows x inner) * (inner x cols); tr_mul (inner x rows)^T * (inner x cols)
     let (ar, ac, br, bc) = match op {
         6 => (rows, inner, inner, cols),
@@ -213,6 +213,9 @@ fn deriv_case(d: &DerivCase, st: &mut Stats) -> Verdict {
         7 => am.tr_mul(&bm),
         8 | 9 | 16 => &am * s,
         10 | 11 | 17 => &am / s,
+        // single-lane SimdValue view: replace(0, b) = select(false, a, b) = b; extract(0) = splat(a) = select(true, a, b) = a
+        18 | 22 => bm.clone(),
+        19 | 20 | 21 => am.clone(),
         _ => -&am,
     };
     let (rr, rc) = (model.nrows(), model.ncols());
@@ -253,11 +256,21 @@ fn deriv_case(d: &DerivCase, st: &mut Stats) -> Verdict {
                     t *= s;
                     t
                 }
-                _ => {
+                18 => {
+                    let mut t = a.clone();
+                    nalgebra::SimdValue::replace(&mut t, 0, b.clone());
+                    t
+                }
+                19 => nalgebra::SimdValue::extract(&a, 0),
+                20 => <Dv as nalgebra::SimdValue>::splat(a.clone()),
+                21 => nalgebra::SimdValue::select(a.clone(), true, b.clone()),
+                22 => nalgebra::SimdValue::select(a.clone(), false, b.clone()),
+                17 => {
                     let mut t = a.clone();
                     t /= s;
                     t
                 }
+                _ => -&a,
             };
             let got = res.unwrap_generic(Dyn(rr), Dyn(rc));
             if got.shape() != model.shape() || got.iter().zip(model.iter()).any(|(x, y)| !(x == y)) {
@@ -269,7 +282,7 @@ fn deriv_case(d: &DerivCase, st: &mut Stats) -> Verdict {
         }
     }
     st.class(&format!("derivative-container op{op}"));
-    Verdict::Pass { nontrivial: (d.a_zero ^ d.b_zero) && matches!(op, 3 | 4 | 5 | 15 | 6 | 7) }
+    Verdict::Pass { nontrivial: (d.a_zero ^ d.b_zero) && matches!(op, 3 | 4 | 5 | 15 | 6 | 7 | 18 | 22) }
 }
 
 // ---------------------------------------------------------------------------------------------
@@ -535,7 +548,7 @@ impl Property for C07 {
         )
             .prop_map(move |((ti, dims), x, raw, parts, zero)| Case { ty: types[ti], dims, x, raw, parts, zero, deriv: None, drv: None });
         let dcase = (
-            (0u8..18, any::<u8>(), any::<u8>(), any::<u8>()),
+            (0u8..23, any::<u8>(), any::<u8>(), any::<u8>()),
             proptest::collection::vec(-16i8..=16, 9),
             proptest::collection::vec(-16i8..=16, 9),
             (any::<bool>(), any::<bool>(), -8i8..=8),
@@ -605,7 +618,7 @@ impl Property for C07 {
         }
     }
     fn rule() -> String {
-        "generated: a program (as in C03) or a HISTORY (a sequence of compound assignments += -= *= /= with dual and scalar right-hand sides, scalar ops and unary functions applied to an accumulator) on every type with optional parts (DualVec, Dual2Vec, HyperDualVec static and dynamic, nested ones); inputs whose optional blocks are all-zero with probability 45% are marked, and ALL 2^k representations (absent vs explicit zeros) of the k <= 6 marked blocks are enumerated per case. Oracle: every part of EVERY node (unwrap_generic) is numerically equal (==, so -0 = +0) across all representations, and the explicit-zero representation equals the reference algebra (32 u e). 10% of the cases call the operator impls of the public Derivative container directly (18 operator impls incl. &a-&b, tr_mul, scalar ops, compound assignments, all shapes 1..3 x 1..3) against plain nalgebra matrices. Another 10% call the driver functions gradient, jacobian, try_jacobian, hessian and partial_hessian (dynamic sizes 1..4, static 2/3) on a generated function R^n -> R^m whose 1..2 constants are handed in either as absent or as explicit-zero parts (every block of every constant: all 2^(blocks*constants) representations), with outputs that are program nodes, bare constants or bare variables; the returned values, gradients, Jacobians and Hessians must be numerically equal across representations. Cases with a non-finite intermediate are out of domain. Non-trivial: in some representation an absent block of the left operand meets a present block of the right operand in -, * or /; driver cases: a constant is used (Jacobians: a bare-constant output precedes a non-constant output).".into()
+        "generated: a program (as in C03) or a HISTORY (a sequence of compound assignments += -= *= /= with dual and scalar right-hand sides, scalar ops and unary functions applied to an accumulator) on every type with optional parts (DualVec, Dual2Vec, HyperDualVec static and dynamic, nested ones); inputs whose optional blocks are all-zero with probability 45% are marked, and ALL 2^k representations (absent vs explicit zeros) of the k <= 6 marked blocks are enumerated per case. Oracle: every part of EVERY node (unwrap_generic) is numerically equal (==, so -0 = +0) across all representations, and the explicit-zero representation equals the reference algebra (32 u e). 10% of the cases call the operator impls of the public Derivative container directly (18 operator impls incl. &a-&b, tr_mul, scalar ops, compound assignments, and the single-lane SimdValue view replace / extract / splat / select, all shapes 1..3 x 1..3) against plain nalgebra matrices. Another 10% call the driver functions gradient, jacobian, try_jacobian, hessian and partial_hessian (dynamic sizes 1..4, static 2/3) on a generated function R^n -> R^m whose 1..2 constants are handed in either as absent or as explicit-zero parts (every block of every constant: all 2^(blocks*constants) representations), with outputs that are program nodes, bare constants or bare variables; the returned values, gradients, Jacobians and Hessians must be numerically equal across representations. Cases with a non-finite intermediate are out of domain. Non-trivial: in some representation an absent block of the left operand meets a present block of the right operand in -, * or /; driver cases: a constant is used (Jacobians: a bare-constant output precedes a non-constant output).".into()
     }
     fn assumptions() -> Vec<String> {
         vec!["k <= 6 marked blocks per case; values finite".into()]
